@@ -125,6 +125,7 @@ func GetEF(c *Ctx) *EF {
 		originKey: map[ssa.CallInstruction]string{}, originFn: map[ssa.CallInstruction]*ssa.Function{},
 		deps: map[*ssa.Function]map[interface{}]bool{}, judged: map[*ssa.Function]bool{}}
 	e.fns = c.ModFuncs("", "lzma", "cmd/gxz")
+	e.fns = append(e.fns, newPublicRoots(c)...) // newapi.go
 	e.computeClosedFields()
 	e.computeMayFail()
 	// fixpoint over summaries with a dependency-driven worklist
